@@ -50,13 +50,39 @@ def spelled(ctx, pw, cred, which):
 def inmem(ctx, pw, cred, context, idu, ids, ksf, rejections):
     ctx.nontrivial = True
     t = flow_tape(ctx, rejections)
-    r = ctx.call("flow", 0, "none", t, pw, cred, context, idu, ids, ksf, model_args=[t, pw, cred, context, idu, ids, ksf])
+    # honest parties also persist their state: every state saved and reloaded through one of the encodings
+    mask, fmt = [(0, "none"), (31, "bincode"), (31, "json"), (31, "native")][(len(pw) + len(cred) + rejections) % 4]
+    r = ctx.call("flow", mask, fmt, t, pw, cred, context, idu, ids, ksf, model_args=[t, pw, cred, context, idu, ids, ksf])
     ctx.expect(r.ok, "in-memory honest flow succeeds (%s)" % r.err)
     if r.ok:
         o = r.outs
         ctx.expect(o[10] == o[11], "session keys agree")
         ctx.expect(o[4] == o[12], "export key as at registration")
         ctx.expect(o[5] == o[13], "server public key as at registration")
+
+
+def patterned_tape(ctx, pw, pattern):
+    """honest flow on tapes whose bytes (after a valid blind chunk) are a constant or a short repeating pattern:
+    nonces, seeds and the OPRF seed at their extreme values"""
+    ctx.nontrivial = True
+    L = ctx.L
+    class P:
+        pass
+    fill = {"zeros": b"\x00", "ones": b"\xff", "01": b"\x01", "ramp": bytes(range(256)), "7f80": b"\x7f\x80"}[pattern]
+    real_tape = ctx.tape
+    def tape(n):
+        return (fill * (n // len(fill) + 1))[:n]
+    ctx.tape = tape
+    try:
+        f = honest_flow(ctx, pw, b"alice", b"ctx", None, None, "~", stop_on_error=False, count=True)
+    finally:
+        ctx.tape = real_tape
+    # the blind chunk is drawn by blind_draw() from ctx.tape too: for patterns that are not a valid scalar the
+    # sampler must reject and run out of tape, which is a resource error, never a wrong result
+    if f.ok:
+        ctx.expect(f.session_client == f.session_server and f.export_login == f.export_reg, "keys agree on the %s tape" % pattern)
+    else:
+        ctx.expect(f.error == "Tape", "on the %s tape the only failure is an exhausted tape (%s at %s)" % (pattern, f.error, f.failed_at))
 
 
 def cases(tier, seed):
@@ -75,6 +101,8 @@ def cases(tier, seed):
                              ksf=KSFS[i % 3], rejections=(2 if i % 5 == 4 else 0)))
         for i, g in enumerate(grid):
             out.append(dict(script=honest if i % 3 else inmem, suite=s, seed=seed * 100000 + si * 1000 + i, mode="pattern", params=g))
+        for k, pat in enumerate(("zeros", "ones", "01", "ramp", "7f80")):
+            out.append(dict(script=patterned_tape, suite=s, seed=seed * 100000 + si * 1000 + 800 + k, mode="pattern", params=dict(pw=b"pw", pattern=pat)))
         for w in ("login-explicit", "server-explicit", "registration-explicit"):
             out.append(dict(script=spelled, suite=s, seed=seed * 100000 + si * 1000 + 900, mode="pattern",
                             params=dict(pw=b"pw", cred=b"u", which=w)))
